@@ -355,8 +355,10 @@ type dictOps struct {
 	decodeHm  func(tc *tboc.Cell) ([]dict.Entry, error)
 	decodeAug func(tc *tboc.Cell) ([]dict.Entry, error)
 	get       func(h any, key []bool) (dict.Value, bool)
-	put       func(h any, key []bool, v dict.Value)
-	marshal   func(h any) (*tboc.Cell, error)
+	// Items() of a dictionary obtained from decodeE, any time later
+	items   func(h any) []dict.Entry
+	put     func(h any, key []bool, v dict.Value)
+	marshal func(h any) (*tboc.Cell, error)
 	// reuse: build by Put, marshal, then look at the same dictionary again (entries, lookups, second marshal)
 	reuse func(keys [][]bool, vals []dict.Value) (entries []dict.Entry, got []dict.Value, found []bool, h1, h2 string, err error)
 	// decodeOver: decode cell a and then cell b into one and the same variable
@@ -422,6 +424,14 @@ func mkOps[K keyC, V any](kname string, va *valAd[V]) *dictOps {
 				return dict.Value{}, false
 			}
 			return va.abs(v), true
+		},
+		items: func(h any) []dict.Entry {
+			items := h.(*tlb.HashmapE[K, V]).Items()
+			ks, vs := make([]K, len(items)), make([]V, len(items))
+			for i, it := range items {
+				ks[i], vs[i] = it.Key, it.Value
+			}
+			return itemsOf(va, ks, vs)
 		},
 		put: func(h any, key []bool, v dict.Value) { h.(*tlb.HashmapE[K, V]).Put(keyOf[K](key), va.mk(v)) },
 		marshal: func(h any) (*tboc.Cell, error) {
@@ -1100,6 +1110,15 @@ func lookupsAndUpdates(c *ctx, model *modelT, d any, from string, r *mon.Rng, fp
 		}
 	}
 	R.EvalN(int64(len(probe)+len(abs)), prefixFP("v-get", fp))
+	// reading it (Items, Keys, Values, Get of present and absent keys) has not changed it
+	var again []dict.Entry
+	if _, ok := guarded(c, model, "Items(after lookups)", func() error { again = o.items(d); return nil }); !ok {
+		return false
+	}
+	if df := diffEntries(again, model); df != "" {
+		R.Violation(c.sig("dictionary-changed-by-lookups@Items("+classOf(from)+")"), c.wit(model, map[string]any{"diff": df, "decoded_from": from}))
+		return false
+	}
 	R.Count("get_present", int64(len(probe)))
 	R.Count("get_absent", int64(len(abs)))
 
@@ -1163,6 +1182,15 @@ func lookupsAndUpdates(c *ctx, model *modelT, d any, from string, r *mon.Rng, fp
 	}
 	if df := diffEntries(p.Entries, m2); df != "" {
 		R.Violation(c.sig("wrong-mapping@decoded+Put"), c.wit(m2, addTo(addTo(w, "diff", df), "boc", bocHex(out))))
+		return false
+	}
+	// the decoded dictionary is still itself after it has been marshalled
+	if _, ok := guarded(c, m2, "Items(after Marshal)", func() error { again = o.items(d); return nil }); !ok {
+		return false
+	}
+	dict.SortEntries(again) // as a mapping: after Put the listing order of the object is not part of the statement
+	if df := diffEntries(again, m2); df != "" {
+		R.Violation(c.sig("dictionary-changed-by-Marshal@Items(decoded+Put)"), c.wit(m2, addTo(w, "diff", df)))
 		return false
 	}
 	_, ok = decodeAndCompare(c, m2, out, "decoded+Put", fp+fmt.Sprint(ops))
@@ -1288,7 +1316,7 @@ func main() {
 		tier = os.Args[1]
 	}
 	R = mon.Start("C05", tier)
-	R.Rule = "one case = one (key type, value type, key-set shape) dictionary: the Go-map model is built first; tongo builds it by Put in all/20 insertion orders and by NewHashmapE (root hashes must coincide), the reference reader (ref/dict) reads tongo's cell tree and must return the model, tongo decodes its own output and 6 reference-written variants (canonical, forced short/long/same labels, two random mixes; delivered in memory or through a BOC) and must list the model in ascending key-bit order; Get for all present (<=300) and 50 absent keys; Put updates/inserts on a decoded dictionary, re-encoded and read back by the reference; HashmapAugE written by the reference decoded by tongo. One case in six gives all keys the same value (plus value type Unit = no bits at all), decoded also after a trip through a BOC (equal sibling sub-trees are one cell there). NewHashmapE also from keys in arbitrary order. Plain Hashmap / HashmapAug IN LINE: the reference-written root (all label forms) spliced between random bits and 0..2 references of neighbouring fields, tongo reads the leading fields, the dictionary at the cursor, then the trailing fields; tongo's Marshal(NewHashmap) in line read by the reference; tlb.LibDescr alone and inside HashmapE 256 LibDescr; decoding into a used plain Hashmap / HashmapAug variable; BlockExtra.InMsgDescrLength/OutMsgDescrLength (second label parser) = number of entries for 256-bit keys. evaluations = comparisons made; non-trivial = non-empty dictionary; distinct = (sub-check, key type, value type, root hash of the encoding[, label-form mix | update script])"
+	R.Rule = "one case = one (key type, value type, key-set shape) dictionary: the Go-map model is built first; tongo builds it by Put in all/20 insertion orders and by NewHashmapE (root hashes must coincide), the reference reader (ref/dict) reads tongo's cell tree and must return the model, tongo decodes its own output and 6 reference-written variants (canonical, forced short/long/same labels, two random mixes; delivered in memory or through a BOC) and must list the model in ascending key-bit order; Get for all present (<=300) and 50 absent keys; Put updates/inserts on a decoded dictionary, re-encoded and read back by the reference; HashmapAugE written by the reference decoded by tongo. One case in six gives all keys the same value (plus value type Unit = no bits at all), decoded also after a trip through a BOC (equal sibling sub-trees are one cell there). NewHashmapE also from keys in arbitrary order. Plain Hashmap / HashmapAug IN LINE: the reference-written root (all label forms) spliced between random bits and 0..2 references of neighbouring fields, tongo reads the leading fields, the dictionary at the cursor, then the trailing fields; tongo's Marshal(NewHashmap) in line read by the reference; tlb.LibDescr alone and inside HashmapE 256 LibDescr; decoding into a used plain Hashmap / HashmapAug variable; deriving operations leave the decoded dictionary intact: tlb.ConfigParams decoded from a reference-written cell, then a random script of CloneKeepingSubsetOfKeys (random / non-prefix / suffix / empty / all subsets, absent and repeated numbers), Put on a clone, Put on the original, Marshal of the original, with the original and every clone compared with their own models (Items, Keys/Values, Get) after every step; Items() again after the lookups and after Marshal of a decoded HashmapE; BlockExtra.InMsgDescrLength/OutMsgDescrLength (second label parser) = number of entries for 256-bit keys. evaluations = comparisons made; non-trivial = non-empty dictionary; distinct = (sub-check, key type, value type, root hash of the encoding[, label-form mix | update script])"
 	R.Assume("reference dictionary reader/writer harness/ref/dict is correct: pinned at start-up by reading every dictionary of the repository's real blocks/config proofs (keys repeat inside their values) and by re-writing them to the same root hash")
 	R.Assume("AddressWithWorkchain keys are drawn with workchains that fit the type's int8 field (sign-extended to the 32-bit key field)")
 	R.Assume("Grams values stay below 2^63 (larger amounts are property C03's subject)")
@@ -1342,6 +1370,7 @@ func main() {
 	close(ch)
 	wg.Wait()
 	libDescrs()
+	configParams()
 	var pairs []string
 	for _, p := range registry {
 		pairs = append(pairs, p.kname+"/"+p.vname)
